@@ -5,3 +5,4 @@ import NrfProps.C08
 import NrfProps.C09
 import NrfProps.C10
 import NrfProps.C15
+import NrfProps.C16
